@@ -38,3 +38,10 @@ def mount_crate(name, features=None):
     d = os.path.join(core.VERIF, 'mount', name)
     pkg = open(os.path.join(d, 'Cargo.toml')).read().split('name = "')[1].split('"')[0]
     return _dump(d, pkg, core.workdir('mount-target', name), features)
+
+
+def dep_of_mount(mount, pkg):
+    """MIR of a /repo package compiled as a dependency inside a mount workspace (i.e. against the model crates that the
+    workspace patches in), e.g. the real actix-tls built against the model tokio-rustls."""
+    d = os.path.join(core.VERIF, 'mount', mount)
+    return _dump(d, pkg, core.workdir('mount-target', mount))
